@@ -13,7 +13,7 @@ def run(prop, tier, seed, replay=None):
     v.assumptions = ["file layouts: lengths of 0..9 units of 8 KiB, up to 4 files, padding flags; block-aligned ranges inside one piece",
                      "writer: ranges of whole blocks or ending with the torrent's short last block; stream splits around block boundaries; 0/1/5000 excess bytes; "
                      "the piece completed by someone else before segment 0/1/2",
-                     "server behaviours: %s" % ", ".join(SERVERS),
+                     "server behaviours: %s; Hoffman (BEP 17) seeds: exact, inclusive range, no length with excess / short, short length, truncated, over-long, 206, 503, bad length, reset" % ", ".join(SERVERS),
                      "full path: single-file, multi-file with a padding file, and 2 MiB pieces; honest / short-range / over-long servers on 127.0.0.1"]
     if replay:
         cases = [json.load(open(replay))["scenario"]]
@@ -48,6 +48,11 @@ def run(prop, tier, seed, replay=None):
         for sv in SERVERS:
             for (off, ln, fl) in ((0, 20000, 100000), (1000, 20000, 100000), (90000, 10000, 100000), (0, 100000, 100000), (16384, 1, 16385)):
                 cases.append({"kind": "get", "server": sv, "off": off, "len": ln, "flen": fl})
+        HSERVERS = ["h-exact", "h-inclusive", "h-nolength-excess", "h-nolength-short", "h-short-length", "h-truncated", "h-overlong", "h-206", "h-503",
+                    "h-bad-length", "h-reset"]
+        for sv in HSERVERS:
+            for (off, ln, fl) in ((0, 16384, 200000), (65536 + 16384, 32768, 200000), (196608, 3392, 200000), (65536, 65536, 200000), (131072 + 100, 5000, 200000)):
+                cases.append({"kind": "hget", "server": sv, "off": off, "len": ln, "flen": fl})
         reps = 1 if tier == "quick" else 5
         for _ in range(reps):
             for layout in ("single", "multi", "big"):
